@@ -69,8 +69,8 @@ var rewrite = map[string]string{
 
 // extra field types of foreign structs (protobuf messages), for typeOf
 var foreignFields = map[string]map[string]string{
-	"pb.KV":             {"InstanceId": "uint64", "OldInstanceId": "uint64", "Finalized": "bool", "Tick": "uint64"},
-	"pb.ShardInfo":      {"ConfigChangeIndex": "uint64", "ReplicaId": "uint64"},
+	"pb.KV":              {"InstanceId": "uint64", "OldInstanceId": "uint64", "Finalized": "bool", "Tick": "uint64"},
+	"pb.ShardInfo":       {"ConfigChangeIndex": "uint64", "ReplicaId": "uint64"},
 	"pb.NodeHostRequest": {"Join": "bool", "Restore": "bool"},
 }
 
